@@ -179,6 +179,14 @@ fn gen_leaf(ty: Ty, depth: u32) -> BoxedStrategy<Leaf> {
         Ty::Bytes32 => fixed_bytes(32).prop_map(Leaf::Bytes).boxed(),
         Ty::Bytes64 => fixed_bytes(64).prop_map(Leaf::Bytes).boxed(),
         Ty::Str => string_any().prop_map(Leaf::Str).boxed(),
+        // a path destined for a `string` field: UTF-8 text (relative, absolute, empty, with NUL and
+        // multi-byte characters), and - rarely - raw bytes that are not UTF-8
+        Ty::StrPath => prop_oneof![
+            10 => string_any().prop_map(|s| Leaf::Bytes(s.into_bytes())),
+            2 => (string_any(), string_any()).prop_map(|(a, b)| Leaf::Bytes(format!("/{a}/{b}").into_bytes())),
+            1 => bytes_any().prop_map(Leaf::Bytes),
+        ]
+        .boxed(),
         Ty::Msg(sub) => gen_msg(sub, depth + 1).prop_map(|d| Leaf::Msg(Box::new(d))).boxed(),
     }
 }
@@ -273,6 +281,11 @@ pub fn type_weights() -> Vec<(u32, MsgId)> {
         (2, MsgId::ResTop),
         (2, MsgId::WithRes),
         (1, MsgId::Borrowed),
+        (3, MsgId::Paths),
+        (2, MsgId::Tup),
+        (1, MsgId::UnitS),
+        (4, MsgId::Wide),
+        (4, MsgId::Holder2),
     ]
 }
 
